@@ -223,10 +223,12 @@ func (s *SchemaValidator) Validate(data interface{}) *Result {
 			continue
 		}
 
-		result.Merge(v.Validate(d))
 		if s.Options.recycleValidators {
-			s.validators[idx] = nil // prevents further (unsafe) usage
+			// the validator redeems itself when it returns or panics: release the slot first, so that the deferred
+			// redeemChildren never redeems it a second time
+			s.validators[idx] = nil
 		}
+		result.Merge(v.Validate(d))
 		result.Inc()
 	}
 	result.Inc()
